@@ -89,9 +89,11 @@ def span_list(m, ngroups):
             [[list(m.span(g))] if m.span(g) != (-1, -1) else [] for g in range(1, ngroups + 1)]]
 
 
-def run_rx(chk, names=None, per_regex=None):
-    """names: regex names of the registry (None = all). Returns #disagreements."""
+def run_rx(chk, names=None, per_regex=None, groups=None):
+    """names: regex names of the registry (None = all of `groups`). Returns #disagreements."""
     reg = gen_modules.registry()
+    if names is None and groups is not None:
+        names = list(gen_modules.registry(groups))
     order = list(reg)
     rng = random.Random(chk.seed * 7919 + 17)
     per_regex = per_regex or chk.n(60, 600)
@@ -127,4 +129,5 @@ def run_rx(chk, names=None, per_regex=None):
             chk.count(("rx", name, s))
     outs = model.call(reqs)
     chk.sample({"suite": "RX", "case": cases[len(cases) // 2], "re": impl[len(cases) // 2]})
-    return chk.correspond(f"RX[{','.join(names) if names else 'all'}]", cases, impl, outs)
+    label = ",".join(groups) if groups else (f"{len(names)} regexes" if names else "all")
+    return chk.correspond(f"RX[{label}]", cases, impl, outs)
